@@ -31,6 +31,12 @@ Model/EmitterTie.vos Model/EmitterTie.vok Model/EmitterTie.required_vos: Model/E
 Model/EmitterExt.vo Model/EmitterExt.glob Model/EmitterExt.v.beautified Model/EmitterExt.required_vo: Model/EmitterExt.v Lib/ZList.vo Model/Emitter.vo Model/EmitterTie.vo
 Model/EmitterExt.vio: Model/EmitterExt.v Lib/ZList.vio Model/Emitter.vio Model/EmitterTie.vio
 Model/EmitterExt.vos Model/EmitterExt.vok Model/EmitterExt.required_vos: Model/EmitterExt.v Lib/ZList.vos Model/Emitter.vos Model/EmitterTie.vos
+Model/EmitterTieX.vo Model/EmitterTieX.glob Model/EmitterTieX.v.beautified Model/EmitterTieX.required_vo: Model/EmitterTieX.v Lib/ZList.vo Model/Emitter.vo Model/EmitterTie.vo Model/EmitterExt.vo
+Model/EmitterTieX.vio: Model/EmitterTieX.v Lib/ZList.vio Model/Emitter.vio Model/EmitterTie.vio Model/EmitterExt.vio
+Model/EmitterTieX.vos Model/EmitterTieX.vok Model/EmitterTieX.required_vos: Model/EmitterTieX.v Lib/ZList.vos Model/Emitter.vos Model/EmitterTie.vos Model/EmitterExt.vos
+Props/EmitterProps.vo Props/EmitterProps.glob Props/EmitterProps.v.beautified Props/EmitterProps.required_vo: Props/EmitterProps.v Lib/ZList.vo Model/Emitter.vo Model/EmitterTie.vo Model/EmitterExt.vo
+Props/EmitterProps.vio: Props/EmitterProps.v Lib/ZList.vio Model/Emitter.vio Model/EmitterTie.vio Model/EmitterExt.vio
+Props/EmitterProps.vos Props/EmitterProps.vok Props/EmitterProps.required_vos: Props/EmitterProps.v Lib/ZList.vos Model/Emitter.vos Model/EmitterTie.vos Model/EmitterExt.vos
 Props/FinalizeProps.vo Props/FinalizeProps.glob Props/FinalizeProps.v.beautified Props/FinalizeProps.required_vo: Props/FinalizeProps.v Lib/ZList.vo Model/Emitter.vo Model/EmitterTie.vo Model/EmitterExt.vo
 Props/FinalizeProps.vio: Props/FinalizeProps.v Lib/ZList.vio Model/Emitter.vio Model/EmitterTie.vio Model/EmitterExt.vio
 Props/FinalizeProps.vos Props/FinalizeProps.vok Props/FinalizeProps.required_vos: Props/FinalizeProps.v Lib/ZList.vos Model/Emitter.vos Model/EmitterTie.vos Model/EmitterExt.vos
